@@ -88,12 +88,16 @@ class FileSystemLoader(BaseLoader):
 
     @staticmethod
     def _uptodate(source_path: Path, mtime: float) -> bool:
-        return mtime == source_path.stat().st_mtime
+        try:
+            return mtime == source_path.stat().st_mtime
+        except OSError:
+            # The file has been removed or is unreadable. It's not up to date.
+            return False
 
     @staticmethod
     async def _uptodate_async(source_path: Path, mtime: float) -> bool:
         return await asyncio.get_running_loop().run_in_executor(
-            None, lambda: mtime == source_path.stat().st_mtime
+            None, FileSystemLoader._uptodate, source_path, mtime
         )
 
     async def get_source_async(
